@@ -91,6 +91,9 @@ def role_via(prog, n, depth=0):
     if len(life) == 1 and 'commit' not in kinds:
         k2 = list(life)[0]
         return k2, life[k2]
+    if 'commit' not in kinds and {'hole_open', 'hole_consume'} <= set(life) <= {'hole_open', 'hole_consume', 'hole_close'}:
+        # the helper opens the hole and fills it (rolling back with the closer on failure): for its caller it constructs the new elements
+        return 'hole_consume', life['hole_consume']
     return kd, det
 
 
